@@ -69,6 +69,11 @@ CHECKS = {
    text="Valid and invalid multi-file projects are built 8 times in-process (image, listings, VICE text, unsorted diagnostic sequence) and 6 times as fresh processes (stdout, exit status, every file in the target directory); any difference is a violation. Campaigns with the same undefined name at several places, clashing `*` imports and equal file stems in two directories target the places where hash order can leak.",
    note="Probabilistic detection: a leak of hash order among k equally ranked items is seen with probability about 1-(1/k!)^(N-1) per case.",
    ref="§5 C10"),
+ "C18": dict(
+   technique="proptest over generated test programs; differential oracle: independent 6502 interpreter + assertion evaluator (self-tested against emulator_6502) vs `mos test` output and exit status",
+   text="Generated projects with 1-3 `.test` blocks (loops, nested loops, forward branches, subroutines, scopes, stack use, indexed/indirect memory, optionally two banks) get assertions chosen from a reference execution trace to be true, false, unevaluable or dependent on a later visit; the reference interpreter runs the model-derived image of the test's bank, evaluates every assertion at every visit and predicts verdict, failing assertion location and message for each test; `mos test` must print the matching verdict line per test, exit non-zero iff a test fails and report each failure at the assertion's file:line:column with the expected message.",
+   note="The modelled instruction subset excludes decimal mode, jmp (ind), brk/rti as instructions and txs; programs are constructed to terminate. Flag symbols are only used for their truth value. The reference interpreter's self test (300 random programs against emulator_6502) runs before every campaign; its failure is exit 2, not a violation.",
+   ref="§5 C18"),
 }
 
 NOT_YET = {
